@@ -64,6 +64,7 @@ type ContractSet struct {
 	Lemmas  []*Lemma
 	ObjInvs map[string]*ObjInv
 	Ghosts  map[string]string // name -> sort
+	GhostTypes map[string][2]string // name -> (package path, Go type expression) for typed reference ghosts
 	Errors  []string
 	Hooks   []*Hook
 	UFs     map[string]ufInfo
@@ -106,7 +107,7 @@ type GhostUpdate struct {
 }
 
 func newContractSet() *ContractSet {
-	return &ContractSet{Funcs: map[string]*Contract{}, Specs: map[string]*SpecFunc{}, ObjInvs: map[string]*ObjInv{}, Ghosts: map[string]string{}, UFs: map[string]ufInfo{}}
+	return &ContractSet{Funcs: map[string]*Contract{}, Specs: map[string]*SpecFunc{}, ObjInvs: map[string]*ObjInv{}, Ghosts: map[string]string{}, GhostTypes: map[string][2]string{}, UFs: map[string]ufInfo{}}
 }
 
 var clauseKeywords = map[string]bool{"func": true, "extern": true, "spec": true, "lemma": true, "axiom": true, "objinv": true,
@@ -320,7 +321,11 @@ func (cs *ContractSet) parseLines(lines []string, pkgPath, pkgName, file string,
 			cs.UFs[name] = ufInfo{args, ret}
 		case "ghost":
 			f := strings.Fields(rest) // var NAME SORT
-			if len(f) >= 3 {
+			if len(f) >= 4 && f[2] == "ref" {
+				// ghost var NAME ref <Go pointer type>: a typed reference (sort Int)
+				cs.Ghosts[f[1]] = "Int"
+				cs.GhostTypes[f[1]] = [2]string{pkgPath, strings.Join(f[3:], " ")}
+			} else if len(f) >= 3 {
 				cs.Ghosts[f[1]] = strings.Join(f[2:], " ")
 			}
 		case "hook", "guard":
@@ -331,7 +336,7 @@ func (cs *ContractSet) parseLines(lines []string, pkgPath, pkgName, file string,
 				after = true
 				k2, r2 = splitKw(r2)
 			}
-			if k2 != "call" && k2 != "go" && k2 != "store" {
+			if k2 != "call" && k2 != "go" && k2 != "store" && k2 != "load" && k2 != "mapwrite" {
 				errf(l, "hook/guard: expected call, go or store, got %q", k2)
 				continue
 			}
